@@ -13,6 +13,10 @@
  R5 strength table: the `match` on the encryption strength yields the four distinct
     (method, key length) pairs V2/5, V2/16, AESV2/16, AESV3/32.
  R6 unlock: the user check, then the owner check; success iff one of them succeeded.
+ R7 sibling agreement of the password padding (Algorithm 2 step a): every function that pads a
+    password to 32 bytes — the writer/user-side helper and the inline copy on the reader's owner
+    path — applies the same truncation discipline (same set of string operations); a difference
+    means a password that one side accepts is refused by the other.
 Not decided: equality of decrypted content with the plaintext; permission bit values.
 """
 from .. import lib as L
@@ -213,3 +217,41 @@ def run(ctx):
         ctx.ok("R6", "unlock:user-and-owner", "both checks attempted", ul.where())
     else:
         ctx.violation("R6", "unlock:user-and-owner", "unlock_with_password does not try both the user and the owner password", ul.where())
+
+    # R7 padding siblings
+    padders = []
+    for fid, fn in facts.fns.items():
+        if fn.kind == "Closure" or not (fid.startswith("encryption::") or fid.startswith("parser::encryption_handler")):
+            continue
+        mins = [1 for b, c, a, d in L.calls_to(fn, ["Ord::min", "std::cmp::min"]) if any(FL.op_const(x) == 32 for x in a)]
+        if mins and L.calls_to(fn, ["copy_from_slice"]) and L.calls_to(fn, ["as_bytes"]):
+            padders.append(fn)
+    if ctx.floor("R7", "password padding implementations", len(padders), 1):
+        VOC = ("is_char_boundary", "floor_char_boundary", "ceil_char_boundary", "chars", "char_indices", "to_lowercase", "to_uppercase",
+               "trim", "trim_end", "trim_start", "nfkc", "nfc", "encode_utf16", "truncate", "take", "take_while", "is_ascii", "from_utf8_lossy",
+               "to_ascii_lowercase", "replace", "filter")
+        prof = {}
+        for fn in padders:
+            names = set()
+            for f in L.group(facts, fn.id):
+                for b, c, a, d, t, u in f.calls():
+                    nm = L.short(c.get("p") or "")
+                    if nm in VOC:
+                        names.add(nm)
+            prof[fn.id] = names
+        ref = None
+        for fid_, names in sorted(prof.items()):
+            if ref is None:
+                ref = (fid_, names)
+                continue
+            key = "padding-siblings:%s~%s" % (L.short(ref[0]), L.short(fid_))
+            if names != ref[1]:
+                ctx.violation("R7", key, "the two implementations of the 32-byte password padding disagree: %s uses %s, %s uses %s — a "
+                              "password longer than 32 bytes (or non-ASCII) is padded differently by the writer/user path and by the "
+                              "reader's owner path, so the correct owner password is refused" %
+                              (L.short(ref[0]), sorted(ref[1]) or "plain byte truncation", L.short(fid_), sorted(names) or "plain byte truncation"),
+                              facts.fns[fid_].where())
+            else:
+                ctx.ok("R7", key, "same truncation discipline (%s)" % (sorted(names) or "plain byte truncation"))
+        if len(prof) == 1:
+            ctx.ok("R7", "padding-siblings:single-implementation", sorted(prof)[0])
